@@ -507,7 +507,7 @@ fn int_of(d: &MDict, k: &[u8]) -> Option<i64> {
 /// Decode the body of a structural stream (xref stream, object stream): filter
 /// chains over FlateDecode, LZWDecode and ASCII85Decode, `DecodeParms` as a
 /// dictionary (single filter) or as an array parallel to the filters.
-fn decode_structural(d: &MDict, body: &[u8]) -> R<Vec<u8>> {
+pub fn decode_structural(d: &MDict, body: &[u8]) -> R<Vec<u8>> {
     let filters: Vec<Vec<u8>> = match dict_get(d, b"Filter") {
         None => return Ok(body.to_vec()),
         Some(MObj::Name(n)) => vec![n.clone()],
